@@ -61,7 +61,8 @@ def mk(spec, label='op'):
     """operand from {'kind','r','c','data','dtype'}"""
     if spec is None:
         return None
-    M = np.array(spec['data'], dtype=spec.get('dtype', 'f8')).reshape(spec['r'], spec['c'])
+    # entries are data/den with den a power of two: exactly representable in f8 and f4
+    M = (np.array(spec['data'], dtype='f8') / spec.get('den', 1)).astype(spec.get('dtype', 'f8')).reshape(spec['r'], spec['c'])
     k = spec['kind']
     if k == 'dense':
         return register(label, M)
@@ -81,18 +82,22 @@ def mk(spec, label='op'):
 
 
 def mkx(spec):
-    X = np.array(spec['data'], dtype=spec.get('dtype', 'f8')).reshape(spec['shape'])
+    X = np.array(spec['data'], dtype={'?': 'bool'}.get(spec.get('dtype', 'f8'), spec.get('dtype', 'f8'))).reshape(spec['shape'])
     if spec.get('order') == 'F':
         X = np.asfortranarray(X)
     return register('x', X)
 
 
-def out_arr(Y):
+def _out_arr(Y, outscale=1):
     Y = np.asarray(Y)
+    dt = str(Y.dtype)
+    # the operands were divided by powers of two; scaling back by outscale (a power of two, exact)
+    # must give integers
+    Y = Y.astype('f8') * outscale
     if not np.all(np.isfinite(Y)) or not np.all(Y == np.round(Y)):
         return {'status': 'NonIntegral', 'shape': list(Y.shape), 'repr': [float(v) for v in Y.ravel()[:50]]}
     return {'status': 'Ok', 'shape': [int(s) for s in Y.shape], 'data': [int(v) for v in Y.ravel()],
-            'dtype': str(Y.dtype)}
+            'dtype': dt}
 
 
 def variant(op, v):
@@ -116,6 +121,7 @@ def apply(op, x, how):
 
 def run_case(c, O, K, T, U, S):
     fam = c['fam']
+    out_arr = lambda Y: _out_arr(Y, c.get('outscale', 1))
     if fam == 'tprod':
         return out_arr(T.apply_tprod(tuple(mk(o) for o in c['ops']), mkx(c['x'])))
     if fam == 'modek':
@@ -136,7 +142,7 @@ def run_case(c, O, K, T, U, S):
         op = variant(O.BlockDiagonalOperator(*[mk(o) for o in c['ops']]), c['variant'])
         return out_arr(apply(op, mkx(c['x']), c.get('how')))
     if fam == 'diag':
-        d = np.array(c['d'], dtype=c.get('dtype', 'f8'))
+        d = (np.array(c['d'], dtype='f8') / c.get('den', 1)).astype(c.get('dtype', 'f8'))
         if c.get('dshape'):
             d = d.reshape(c['dshape'])
         register('d', d)
@@ -153,7 +159,7 @@ def run_case(c, O, K, T, U, S):
         return out_arr(apply(op, mkx(c['x']), c.get('how')))
     if fam in ('rowslice', 'rowsubset'):
         a = c['A']
-        A = scipy.sparse.csr_matrix((np.array(a['data'], dtype='f8'), np.array(a['indices'], dtype=np.int32),
+        A = scipy.sparse.csr_matrix((np.array(a['data'], dtype='f8') / a.get('den', 1), np.array(a['indices'], dtype=np.int32),
                                      np.array(a['indptr'], dtype=np.int32)), shape=(a['r'], a['c']))
         register('A', A)
         if fam == 'rowslice':
@@ -175,7 +181,7 @@ def run_case(c, O, K, T, U, S):
 
         def app(op, stage):
             Y = np.asarray(apply(op, x, c.get('how')))
-            outs.append({'stage': stage, 'shape': [int(s) for s in Y.shape], 'hex': [float(v).hex() for v in Y.ravel()],
+            outs.append({'stage': stage, 'dtype': str(Y.dtype), 'shape': [int(s) for s in Y.shape], 'hex': [float(v).hex() for v in Y.ravel()],
                          'opshape': [int(s) for s in op.shape]})
             mut.extend('%s after %s' % (m, stage) for m in mutated())
 
